@@ -17,9 +17,12 @@
    REFUTED (witnesses by vm_compute on the model; the model is tied to the implementation):
      start line <= end line for HtmlBlock (known class C11-h), 1 <= end line for the Document of the empty input (C11-a),
      end line <= N for FrontMatter (NEW: front matter whose closing line has no line end).
-   NOT PROVED: see the two full statements below. *)
+   NOT PROVED in the first round: the two full statements below.  The SECOND ROUND at the end of this file proves the
+   first (BlocksPos_lines: line bounds for every value but FrontMatter under every option set) and start-line nesting
+   with the description list extension off (BlocksPos_start_nest). *)
 From Coq Require Import List NArith Bool.
 From V Require Import Base.Bytes Base.Res Gen.Nodes Model.Ast Model.Feed Model.Blocks Proofs.BlocksPos Proofs.BlocksPosRun.
+From V Require Proofs.BlocksNest Proofs.BlocksNestFinal.
 Import ListNotations.
 From Coq Require Import Strings.String.
 Local Open Scope string_scope.
@@ -71,8 +74,8 @@ Theorem BlocksPos_front_matter_refuted :
 Proof. exact front_matter_end_refuted. Qed.
 Print Assumptions BlocksPos_front_matter_refuted.
 
-(* ---- what is not proved *)
-(* (1) the bounds for EVERY value other than FrontMatter and under every option set.  Gap: with the table extension on,
+(* ---- what the first round left open *)
+(* (1) [PROVED at the end of this file: BlocksPos_lines] the bounds for EVERY value other than FrontMatter and under every option set.  Gap: with the table extension on,
    try_inserting_table_header_paragraph moves the start of the paragraph by the LF count of the preface; that count is
    bounded by the paragraph's line_offsets (one per line added), but carrying `start + |line_offsets| <= line_number`
    through the replacement of the paragraph by the table needs that node identifiers are unique (upd and edit_kids
@@ -90,7 +93,12 @@ Definition BlocksPos_lines_full_statement : Prop := forall o x r,
    HtmlBlock is closed on the line that created it: the chain finalize_up_to / add_child_loop climbs consists of blocks
    with an earlier start (start-line nesting parent <= child, which fails below a DescriptionTerm), and no handler
    fires after a table row was opened (the cursor is at the line end).  Observed true on the compiled parser on
-   170 000 generated documents (the survey is not part of the check). *)
+   170 000 generated documents (the survey is not part of the check).
+   Second round: the start-line nesting is now proved with description lists off (BlocksPos_start_nest) and the line
+   bounds for every value (BlocksPos_lines: the branches that set end = line_number are settled); still missing is the
+   link from nesting to `the block closed by the line_number - 1 branch was not created on this line` (the chain
+   add_child_loop / finalize_up_to climbs starts at ps_current or at a matched container, which takes an invariant about
+   ps_current and the open spine) and the table-row argument. *)
 Definition BlocksPos_start_le_end_full_statement : Prop := forall o x r,
   parse_blocks o x = Ok r -> 1 <= block_lines o x ->
   forall n, In n (nsub (to_node (br_root r))) ->
@@ -101,3 +109,79 @@ Example BlocksPos_example :
   parsed_positions o_plain (B "> ```" ++ [x0a] ++ B "> x" ++ [x0a] ++ B "> ```" ++ [x0a] ++ B "***" ++ [x0a])
     = Ok [(KDocument, (1, 1, 4, 3))%N; (KBlockQuote, (1, 1, 3, 5))%N; (KCodeBlock, (1, 3, 3, 5))%N; (KThematicBreak, (4, 1, 4, 3))%N].
 Proof. exact positions_example. Qed.
+
+
+(* ================================================================== second round (Proofs/BlocksNest*.v)
+   The invariant there has a clause per node and a clause per (parent, child) edge and is carried together with the
+   pairwise distinct identifiers of Props/ParserShape.v (state invariant TI of Proofs/ParserShapeTabPrim.v) and the
+   containment invariant of Props/Blocks.v (a Paragraph has no children):
+     every node            : start line <= max 1 N;  end line <= max 1 N unless the value is FrontMatter
+     every Paragraph       : start line + |line_offsets| <= N + 1   (one entry per line it was given; this is what bounds
+                             the start try_inserting_table_header_paragraph moves by the LF count of the preface)
+     every (parent, child) : start line of the parent <= start line of the child, when the description list extension is off
+   PROVED now, every option set: BlocksPos_lines_full_statement (= BlocksPos_lines).
+   PROVED with description lists off: start-line nesting (BlocksPos_start_nest); with them on it is FALSE below a
+   DescriptionTerm (BlocksPos_start_nest_description_term_refuted, known class C11-l) and not proved elsewhere
+   (BlocksPos_start_nest_full_statement).
+   STILL NOT PROVED: BlocksPos_start_le_end_full_statement. *)
+Theorem BlocksPos_lines : BlocksPos_lines_full_statement.
+Proof. exact BlocksNestFinal.parse_blocks_lines. Qed.
+Print Assumptions BlocksPos_lines.
+
+(* the start line of EVERY node, the front matter included *)
+Theorem BlocksPos_start_line : forall o x r,
+  parse_blocks o x = Ok r ->
+  forall n, In n (nsub (to_node (br_root r))) -> (sl (nsp n) <= N.max 1 (N.of_nat (block_lines o x)))%N.
+Proof. exact BlocksNestFinal.parse_blocks_start_line. Qed.
+Print Assumptions BlocksPos_start_line.
+
+(* start-line nesting, description lists off: every node starts at or before each of its children *)
+Theorem BlocksPos_start_nest : forall o x r,
+  parse_blocks o x = Ok r -> bo_description_lists o = false ->
+  forall n, In n (nsub (to_node (br_root r))) -> forall c, In c (nch n) -> (sl (nsp n) <= sl (nsp c))%N.
+Proof. exact BlocksNestFinal.parse_blocks_start_nest. Qed.
+Print Assumptions BlocksPos_start_nest.
+
+(* the crate-private line_offsets of a paragraph: at most one entry per line since its start *)
+Theorem BlocksPos_line_offsets : forall o x r,
+  parse_blocks o x = Ok r ->
+  forall b, In b (ParserShapeTree.bsub (br_root r)) -> bval b = Paragraph ->
+  bi_sl (binf b) + List.length (bi_lo (binf b)) <= block_lines o x + 1.
+Proof. exact BlocksNestFinal.parse_blocks_line_offsets. Qed.
+Print Assumptions BlocksPos_line_offsets.
+
+(* the invariant the proof goes through, on the model's own tree *)
+Theorem BlocksPos_nest_invariant : forall o x r,
+  parse_blocks o x = Ok r ->
+  BlocksNest.tn (BlocksNest.Q (block_lines o x) 1) (BlocksNest.rl (bo_description_lists o)) (br_root r).
+Proof. exact BlocksNestFinal.parse_blocks_xi. Qed.
+Print Assumptions BlocksPos_nest_invariant.
+
+(* with description lists: the DescriptionTerm is created on the line of the colon around the paragraph that precedes it *)
+Theorem BlocksPos_start_nest_description_term_refuted :
+  parsed_positions BlocksNestFinal.o_dl (B "a" ++ [x0a; x0a] ++ B ": b" ++ [x0a])
+    = Ok [(KDocument, (1, 1, 3, 3))%N; (KDescriptionList, (1, 1, 3, 3))%N; (KDescriptionItem, (1, 1, 3, 3))%N;
+          (KDescriptionTerm, (3, 1, 3, 0))%N; (KParagraph, (1, 1, 1, 1))%N;
+          (KDescriptionDetails, (3, 1, 3, 3))%N; (KParagraph, (3, 3, 3, 3))%N].
+Proof. exact BlocksNestFinal.start_nest_description_term_refuted. Qed.
+Print Assumptions BlocksPos_start_nest_description_term_refuted.
+
+(* start-line nesting under every option set, with the one exception observed (170 000 + 415 000 generated documents on
+   the compiled parser: the only failing (parent, child) pairs are (DescriptionTerm, Paragraph)).  Gap: with description
+   lists on, parse_desc_list_details writes the start of the absorbed paragraph into the DescriptionList / DescriptionItem
+   it has just appended under an ANCESTOR of the paragraph's parent (add_child climbs while can_contain fails); that this
+   ancestor starts at or before the paragraph needs the transitive form of the clause (every ancestor that is not a
+   DescriptionTerm starts at or before every descendant), i.e. a lower bound handed down the tree instead of a clause per
+   edge; the invariant of Proofs/BlocksNest.v is per edge. *)
+Definition BlocksPos_start_nest_full_statement : Prop := forall o x r,
+  parse_blocks o x = Ok r ->
+  forall n, In n (nsub (to_node (br_root r))) ->
+  match nval n with DescriptionTerm => True | _ => forall c, In c (nch n) -> (sl (nsp n) <= sl (nsp c))%N end.
+
+(* non-vacuity: paragraph lines in front of a table; the paragraph start is moved and the table starts on line 3 *)
+Example BlocksPos_table_example :
+  parsed_positions BlocksNestFinal.o_tbl (B "x" ++ [x0a] ++ B "y" ++ [x0a] ++ B "a|b" ++ [x0a] ++ B "-|-" ++ [x0a] ++ B "c|d" ++ [x0a])
+    = Ok [(KDocument, (1, 1, 5, 3))%N; (KParagraph, (1, 1, 2, 1))%N; (KTable, (3, 1, 5, 3))%N;
+          (KTableRow, (3, 1, 3, 3))%N; (KTableCell, (3, 1, 3, 1))%N; (KTableCell, (3, 3, 3, 3))%N;
+          (KTableRow, (5, 1, 5, 3))%N; (KTableCell, (5, 1, 5, 1))%N; (KTableCell, (5, 3, 5, 3))%N].
+Proof. exact BlocksNestFinal.table_after_paragraph_example. Qed.
